@@ -240,10 +240,16 @@ type vfC03Row struct {
 	Expect  string // accept | reject | either
 	PSK     bool
 	Variant string // cross dimension: plain | noems | cid | nohv | mtu100
+	SrvName string // the name the honest client is configured with (default vfServerName); may be an IP literal
 }
 
 func (r vfC03Row) ID() string {
-	return fmt.Sprintf("%s/v%s/rogue-%s/%s/%s/policy%d/verify=%v/%s", r.Name, r.Ver, r.Rogue, r.Dev, r.Kind, r.Policy, r.Verify, r.Variant)
+	id := fmt.Sprintf("%s/v%s/rogue-%s/%s/%s/policy%d/verify=%v/%s", r.Name, r.Ver, r.Rogue, r.Dev, r.Kind, r.Policy, r.Verify, r.Variant)
+	if r.SrvName != "" {
+		id += "/name=" + r.SrvName
+	}
+
+	return id
 }
 
 func vfC03Rows() []vfC03Row {
@@ -288,6 +294,12 @@ func vfC03Rows() []vfC03Row {
 						add("expired", exp("reject", "accept"))
 					}
 				}
+			}
+			// --- the configured server name is an IP literal: it is still the name the chain has to be valid for
+			for _, ip := range []string{"192.0.2.7", "2001:db8::7"} {
+				rows = append(rows,
+					vfC03Row{Name: "server-cred", Ver: ver, Rogue: "s", Dev: "ip-name-control", Kind: "ecdsa", Verify: true, Expect: "accept", Variant: variant, SrvName: ip},
+					vfC03Row{Name: "server-cred", Ver: ver, Rogue: "s", Dev: "ip-name-cert-for-other-name", Kind: "ecdsa", Verify: true, Expect: "reject", Variant: variant, SrvName: ip})
 			}
 			// --- rogue client, honest server (server verifies against ClientCAs)
 			for _, pol := range []ClientAuthType{NoClientCert, RequestClientCert, RequireAnyClientCert, VerifyClientCertIfGiven, RequireAndVerifyClientCert} {
@@ -380,6 +392,10 @@ func vfC03Run(t *testing.T, res *vfResult, row vfC03Row) {
 				serverCert = pki.Leaf("ecdsa", "server-rogueca")
 			case "wrong-name":
 				serverCert = pki.Leaf("ecdsa", "server-wrongname")
+			case "ip-name-control":
+				serverCert = pki.Leaf("ecdsa", "server-ip")
+			case "ip-name-cert-for-other-name":
+				// a genuine certificate of the same CA, whose key the server holds, issued for a DNS name only
 			case "expired":
 				serverCert = pki.Leaf("ecdsa", "server-expired")
 			case "stolen-chain-own-key":
@@ -425,7 +441,11 @@ func vfC03Run(t *testing.T, res *vfResult, row vfC03Row) {
 			cO = append(cO, WithGetClientCertificate(func(*CertificateRequestInfo) (*tls.Certificate, error) { return &cc, nil }))
 		}
 		if row.Verify {
-			cO = append(cO, WithRootCAs(pki.Pool), WithServerName(vfServerName))
+			name := vfServerName
+			if row.SrvName != "" {
+				name = row.SrvName
+			}
+			cO = append(cO, WithRootCAs(pki.Pool), WithServerName(name))
 		} else {
 			cO = append(cO, WithInsecureSkipVerify(true))
 		}
